@@ -63,6 +63,12 @@ type c09Server struct {
 	Port   []c09Part `json:"port"`
 	Base   []string  `json:"base"`
 	Slash  bool      `json:"slash"`
+	Bv     []c09BVar `json:"bv"` // base-path variables: segment I (1-based) of Base is the variable V, Base[I-1] its default
+}
+
+type c09BVar struct {
+	I int    `json:"i"`
+	V string `json:"v"`
 }
 
 type c09Doc struct {
@@ -134,7 +140,15 @@ func c09ServerJSON(s c09Server) map[string]any {
 			note(p)
 		}
 	}
-	b.WriteString(c09PathText(s.Base))
+	base := append([]string{}, s.Base...)
+	for _, bv := range s.Bv {
+		if bv.I < 1 || bv.I > len(base) {
+			panic("harness: c09 base-path variable outside the base path")
+		}
+		vars[bv.V] = map[string]any{"default": s.Base[bv.I-1]}
+		base[bv.I-1] = "{" + bv.V + "}"
+	}
+	b.WriteString(c09PathText(base))
 	if s.Slash {
 		b.WriteByte('/')
 	}
@@ -259,6 +273,9 @@ var (
 // c09Find calls FindRoute and projects the result; the returned route object (nil if none) is handed
 // back so that the caller can keep holding it while further requests are routed.
 func c09Find(r routers.Router, req *http.Request) (map[string]any, *routers.Route) {
+	if r == nil {
+		return map[string]any{"k": "unbuilt"}, nil
+	}
 	obs, route := c09FindObs(r, req)
 	if obs["k"] != "route" {
 		route = nil
@@ -342,19 +359,33 @@ func c09Run(c *Case) []any {
 		line["msg"] = err.Error()
 		return []any{line}
 	}
+	// construction is an observation of its own, per router: "ok" | "error" | "panic"; a router that was not built
+	// observes nothing ("unbuilt"), the other one is still run
 	var g, l routers.Router
-	var gerr, lerr error
-	if p, msg := guard(func() { g, gerr = gorillamux.NewRouter(doc) }); p || gerr != nil {
-		line["load"] = "gorillamux_newrouter_failed"
-		line["msg"] = msg
-		return []any{line}
+	built := map[string]any{}
+	build := func(key string, mk func() (routers.Router, error)) routers.Router {
+		var r routers.Router
+		var err error
+		p, msg := guard(func() { r, err = mk() })
+		switch {
+		case p:
+			built[key] = "panic"
+			line[key+"msg"] = msg
+			return nil
+		case err != nil || r == nil:
+			built[key] = "error"
+			if err != nil {
+				line[key+"msg"] = err.Error()
+			}
+			return nil
+		}
+		built[key] = "ok"
+		return r
 	}
-	if p, msg := guard(func() { l, lerr = legacy.NewRouter(doc) }); p || lerr != nil {
-		line["load"] = "legacy_newrouter_failed"
-		line["msg"] = msg
-		return []any{line}
-	}
+	g = build("g", func() (routers.Router, error) { return gorillamux.NewRouter(doc) })
+	l = build("l", func() (routers.Router, error) { return legacy.NewRouter(doc) })
 	line["load"] = "ok"
+	line["built"] = built
 	line["rdoc"] = c09ProjectDoc(doc)
 
 	ru, rm, og, ol := []any{}, []any{}, []any{}, []any{}
